@@ -63,11 +63,23 @@ def write_replay(prop, name, payload):
     return p
 
 
-def kani_counterexample(prop, crate, harness, result):
-    """concrete playback + native replay of a failing harness; returns replay payload"""
-    pb = kani_unit.concrete_playback(crate, harness)
+MAX_EAGER_REPLAYS = int(os.environ.get('VERIF_MAX_REPLAYS', '4'))
+_replays_done = [0]
+
+
+def kani_counterexample(prop, crate, harness, result, eager=True):
+    """concrete playback + native replay of a failing harness; returns replay payload.
+    Only the first MAX_EAGER_REPLAYS failing harnesses of a run are replayed eagerly (each costs a CBMC re-run and a
+    native build); for the others the replay file records the failed checks and `./check --replay FILE` extracts and
+    replays the counterexample on demand."""
     payload = {'property': prop, 'engine': 'kani', 'crate': crate, 'harness': harness,
                'failed_checks': result.get('failed_checks'), 'kind': 'kani-counterexample'}
+    if not eager or _replays_done[0] >= MAX_EAGER_REPLAYS:
+        payload['deferred'] = ('CBMC found a counterexample for this harness (failed checks above); concrete values are '
+                               'extracted and replayed natively by `./check %s --replay <this file>`' % prop)
+        return payload
+    _replays_done[0] += 1
+    pb = kani_unit.concrete_playback(crate, harness)
     if pb:
         payload['playback_tests'] = pb['tests']
         payload['playback_cmd'] = pb['cmd']
@@ -80,6 +92,12 @@ def do_replay(path):
     pl = json.load(open(path))
     print(f'replay file: {path}')
     print(f'property={pl.get("property")} obligation={pl.get("obligation")}')
+    if pl.get('deferred') and not pl.get('playback_tests'):
+        pb = kani_unit.concrete_playback(pl['crate'], pl['harness'])
+        if pb:
+            pl['playback_tests'] = pb['tests']
+            pl['playback_cmd'] = pb['cmd']
+            json.dump(pl, open(path, 'w'), indent=1)
     if pl.get('playback_tests'):
         rp = kani_unit.run_playback(pl['crate'], pl['harness'], pl['playback_tests'][0])
         print(rp['cmd'])
@@ -295,7 +313,7 @@ def run_property(prop, tier, seed, rebaseline=False, only_units=None):
             payload.update(kani_counterexample(prop, c, hn, r))
             payload['kind'] = 'verus-obligation+kani-counterexample'
             p = write_replay(prop, f'{u}-{short}', payload)
-            ok = payload.get('native_replay', {}).get('reproduced')
+            ok = payload.get('native_replay', {}).get('reproduced') or payload.get('deferred')
             lines.append(f'VIOLATION property={prop} replay={p}' + ('' if ok else ' no-failing-input-found'))
         else:
             payload['harnesses_tried'] = [f'{c}::{h["name"]}' for c, (m, hs, res) in kani_results.items() for h in hs]
@@ -309,7 +327,7 @@ def run_property(prop, tier, seed, rebaseline=False, only_units=None):
         payload['class'] = h.get('class')
         payload['bound'] = h.get('bound')
         p = write_replay(prop, f'kani-{c}-{hn}', payload)
-        ok = payload.get('native_replay', {}).get('reproduced')
+        ok = payload.get('native_replay', {}).get('reproduced') or payload.get('deferred')
         lines.append(f'VIOLATION property={prop} replay={p}' + ('' if ok else ' no-failing-input-found'))
         violations.append({'unit': f'kani:{c}', 'function': hn, 'engine': 'kani',
                            'detail': '; '.join(x['desc'] for x in r['failed_checks'])})
